@@ -5,7 +5,7 @@ from __future__ import annotations
 import ast
 
 from ..cfg import CFG
-from ..model import AnalysisError, ClassInfo, FuncInfo, norm
+from ..model import Unfoldable, AnalysisError, ClassInfo, FuncInfo, norm
 from ..prov import Canon
 from . import codec
 from .common import Ctx, fkey
@@ -27,6 +27,7 @@ def run(ctx: Ctx, chk) -> None:
     chk.run_rule(schema_bij, ctx)
     chk.run_rule(valid_sym, ctx)
     chk.run_rule(legacy1, ctx)
+    chk.run_rule(enc_sym, ctx)
 
 
 def stored_attrs(ctx: Ctx, c: ClassInfo) -> dict[str, str]:
@@ -162,6 +163,65 @@ def schema_bij(ctx: Ctx, chk) -> None:
         chk.refute(rule, f"{load.fq}::records", "load does not register every loaded node under its node_id in the shared registry", load.where)
 
 
+def enc_sym(ctx: Ctx, chk) -> None:
+    rule = "ENC-SYM"
+    chk.rule(rule, "save and load open the persistence file with the same text encoding (both the platform default, or the same explicit encoding) and the same newline/errors policy: a registry holding non-ASCII text written under one encoding is not read back under another")
+    from .c15 import OPENERS
+    from .common import callee_names
+
+    pers = ctx.cls(PERS)
+    found = {}
+    for name in ("save", "load"):
+        f = pers.find_method(name)
+        if f is None:
+            raise AnalysisError(f"anchor vanished: Persistence.{name}")
+        fi = ctx.inl(f)
+        opens = [n for n in ctx.own_nodes(fi) if isinstance(n, ast.Call) and any(o in callee_names(ctx, f, n) for o in OPENERS)]
+        if len(opens) != 1:
+            raise AnalysisError(f"ENC-SYM: expected one open() in Persistence.{name}, found {len(opens)}")
+        o = opens[0]
+        opts = {}
+        pos = ("file", "mode", "buffering", "encoding", "errors", "newline")
+        for i, a in enumerate(o.args):
+            if i < len(pos):
+                opts[pos[i]] = a
+        for kw in o.keywords:
+            if kw.arg:
+                opts[kw.arg] = kw.value
+        rec = {}
+        for k in ("encoding", "errors", "newline"):
+            if k in opts:
+                try:
+                    v = ctx.folder.plain(ctx.folder.fold(f.module, opts[k]))
+                except Unfoldable:
+                    raise AnalysisError(f"ENC-SYM: cannot fold {k}= of the open() in Persistence.{name}") from None
+                if k == "encoding" and isinstance(v, str):
+                    v = v.lower().replace("-", "").replace("_", "")
+                rec[k] = v
+            else:
+                rec[k] = None
+        found[name] = (rec, f, o)
+    chk.instance(rule)
+    (rs, fs, os_), (rl, fl, ol) = found["save"], found["load"]
+    key = f"{PERS}::save/load::text-encoding"
+    # json.dumps escapes everything outside ASCII unless ensure_ascii=False: then any ASCII-compatible pair agrees
+    dumps = [n for n in ctx.own_nodes(ctx.inl(fs)) if isinstance(n, ast.Call) and norm(n.func).endswith("dumps")]
+    ascii_only = bool(dumps)
+    for d_ in dumps:
+        for kw in d_.keywords:
+            if kw.arg == "ensure_ascii" and not (isinstance(kw.value, ast.Constant) and kw.value.value is True):
+                ascii_only = False
+            if kw.arg is None:
+                ascii_only = False
+    compat = {None, "utf8", "ascii", "usascii", "latin1", "iso88591", "cp1252", "utf8sig"}
+    if rs != rl and ascii_only and rs["encoding"] in compat and rl["encoding"] in compat - {"utf8sig"} and rs["errors"] == rl["errors"] and rs["newline"] == rl["newline"]:
+        chk.ok(rule, key, f"save writes pure ASCII (json.dumps escapes the rest) and both encodings ({rs['encoding']!r}, {rl['encoding']!r}) are ASCII-compatible", ctx.loc(fs, os_))
+    elif rs == rl:
+        chk.ok(rule, key, f"both open with encoding={rs['encoding']!r}, errors={rs['errors']!r}, newline={rs['newline']!r}", ctx.loc(fs, os_))
+    else:
+        chk.refute(rule, key, f"save opens the file with {rs} but load with {rl}: what was saved is decoded differently when it is loaded (non-ASCII sketch names / descriptions / values come back changed, or the file is refused)", ctx.loc(fs, os_))
+
+
 def valid_sym(ctx: Ctx, chk) -> None:
     rule = "VALID-SYM"
     chk.rule(rule, "every validator on a load-side field holds for every value a writer can put into that attribute: each store site of a validated attribute is dominated by an equivalent range check, or takes a value from a field with the same validator, or a constant inside the range")
@@ -262,6 +322,14 @@ def value_within(ctx: Ctx, f: FuncInfo, node: ast.AST, val: ast.expr, lo, hi):
         # upper bound from a dominating `v > K -> raise` test (C11 RANGE-1), lower bound from the expression shape
         la = ctx.I.local_assigns(f).get(val.id) or []
         if len(la) == 1 and isinstance(la[0], ast.expr):
+            # the first element of a constant range
+            from .c11 import search_shape
+
+            sh = search_shape(ctx, f, la[0])
+            if sh is not None and sh[2] is None:
+                rlo, rhi = sh[0], sh[1] - 1
+                if (lo is None or rlo >= lo) and (hi is None or rhi <= hi):
+                    return True, f"an element of range({sh[0]}, {sh[1]})"
             low = lower_bound(la[0])
             from .c11 import interval_truth
 
